@@ -16,7 +16,7 @@ LEVEL = "exploration"
 DESIGN_REF = "DESIGN.md §3 C02"
 RULE = (
     "Histories of Universe.add_vertex/remove_vertex, Vertex.add_to_universe/remove_from_universe, "
-    "Vertex(universes=[.. with repeats]) and Universe(vertices=[.. with repeats]) (lists, tuples, one-shot iterators), and bulk addition of 7-40 fresh members at once (membership-index size thresholds) over 1-3 universes and 1-3 plain "
+    "Vertex(universes=[.. with repeats]) and Universe(vertices=[.. with repeats]) (lists, tuples, one-shot iterators), two universes built from one and the same list object, and bulk addition of 7-40 fresh members at once (membership-index size thresholds) over 1-3 universes and 1-3 plain "
     "vertices where universes are themselves candidates for membership (nesting, self-membership).  "
     "Bounded-exhaustive for every history up to the stated length over 2 universes + 2 vertices (all four calls, "
     "every universe x every member candidate incl. the universes themselves), Hypothesis beyond.  After every "
@@ -38,7 +38,7 @@ LEVEL_TEXT = (
 LEVEL_NOTE = "Trusts the dict/list membership model and the snapshot reader (public accessors only). Search, not proof."
 TECHNIQUE = "model-based stateful PBT: exhaustive small-scope histories + Hypothesis op-lists vs. an insertion-ordered membership model"
 
-OPS_W = ["ua"] * 3 + ["va"] * 3 + ["ur"] * 2 + ["vr"] * 2 + ["newv_u", "newu"] + ["bulk_u"]
+OPS_W = ["ua"] * 3 + ["va"] * 3 + ["ur"] * 2 + ["vr"] * 2 + ["newv_u", "newu", "newu2"] + ["bulk_u"]
 
 
 def budget(tier):
